@@ -25,8 +25,10 @@
 (* total into a failing result that names event consumed + 1.                 *)
 EXTENDS LoggerCid, Json
 
-VARIABLE i          \* index of the next event
-tvars == <<vars, i>>
+VARIABLES i,        \* index of the next event
+          floor     \* every id in FirstId..floor-1 has been handed out in this process: the ids
+                    \* of the process so far are (FirstId..floor-1) \cup used
+tvars == <<vars, i, floor>>
 
 Trace    == TLCEval(ndJsonDeserialize("trace.ndjson"))      \* TLCEval: read the file once
 TracePid == Trace[1].pid
@@ -38,29 +40,35 @@ Quiet(g)  == rd[g] = Idle /\ pend[g] = <<>>
 
 \* a new process-level run: contexts, lines and call counters of the previous run are
 \* forgotten; the ids handed out in the process are NOT (uniqueness is per process)
+\* (kept in compact form when they are a gap-free range, which is what a counter produces;
+\* otherwise the set is simply kept)
 TReset(e) == /\ e.e = "reset"
              /\ e.pid = Pid /\ e.n <= N
-             /\ ctxid' = <<>> /\ origin' = <<>>
+             /\ ctxid' = [g \in AllProcs |-> <<>>] /\ origin' = [g \in AllProcs |-> <<>>]
              /\ nlog' = [g \in AllProcs |-> 0]
              /\ out' = <<>>
-             /\ UNCHANGED <<next, used, rd, pend>>
+             /\ IF used = floor..next
+                THEN used' = {} /\ floor' = next + 1
+                ELSE UNCHANGED <<used, floor>>
+             /\ UNCHANGED <<next, rd, pend>>
 
 \* NewAtomic with `id = next + 1` weakened to freshness
 TFresh(g, c, id) == /\ Quiet(g)
                     /\ c.g = g
-                    /\ id >= FirstId
+                    /\ id >= floor
                     /\ id \notin used
                     /\ Hand(c, id)
                     /\ next' = Max(next, id)
                     /\ UNCHANGED <<rd, pend, nlog, out>>
 
-TNew(e) == e.e = "new" /\ TFresh(e.g, e.c, e.id)
+TNew(e) == e.e = "new" /\ TFresh(e.g, e.c, e.id) /\ UNCHANGED floor
 
 TAlias(e) == /\ e.e = "alias"
              /\ ArgOk(e.src)
              /\ IF HasId(e.src)
-                THEN Alias(e.g, e.c, e.src) /\ ctxid'[e.c] = e.id /\ e.c.g = e.g
+                THEN e.c.g = e.g /\ Alias(e.g, e.c, e.src) /\ ctxid'[e.c.g][e.c.i] = e.id
                 ELSE e.src.k \in {"bg", "nil"} /\ TFresh(e.g, e.c, e.id)
+             /\ UNCHANGED floor
 
 \* what the harness read from a Write call against the line of the specification
 Observed(w, line) == /\ w.whole
@@ -76,8 +84,9 @@ TLog(e) == /\ e.e = "log"
               \/ /\ Len(e.w) = 0             \* nothing at the writer: only for a level that
                  /\ e.level \notin Routed    \* Switch does not route to it (Info)
                  /\ LogCall(e.g, e.level, e.arg, FALSE)
+           /\ UNCHANGED floor
 
-TInit == Init /\ i = 1 /\ TLCSet(1, 0)
+TInit == Init /\ i = 1 /\ floor = FirstId /\ TLCSet(1, 0)
 
 TNext == /\ i <= Len(Trace)
          /\ LET e == Trace[i] IN TReset(e) \/ TNew(e) \/ TAlias(e) \/ TLog(e)
